@@ -4,8 +4,8 @@
 (*                                                                         *)
 (* The streams: for every kind one (thorough: two) valid encoded stream,   *)
 (* built with the format definition Wire (Segs... = the field boundaries): *)
-(*   packfile  magic | version | (header | body)* with 3 objects, one with *)
-(*             a 3-byte header       pktline  pkt-lines incl. flush-pkts   *)
+(*   packfile  magic | version | (header | body)* with 3 objects           *)
+(*   pktline   pkt-lines incl. flush-pkts                                  *)
 (*   commit table (>= 2 blocks' worth of sums) block blkidx uintlist       *)
 (*   strlist profile                                                       *)
 (*                                                                         *)
@@ -73,7 +73,6 @@ T1 == MkTable(<<Ascii("id"), Ascii("name"), <<>>>>, <<0>>, 300)          \* 2 bl
 T2 == MkTable(<<Run(99, 70), Ascii("k")>>, <<1, 0>>, 600)                 \* 3 + 3
 
 BlkA == << <<Ascii("a"), Ascii("bc")>>, << <<>>, Ascii("x")>>, <<Run(121, 40), <<>>>> >>
-BlkBig == << <<Ascii("k"), Run(122, 2100)>> >>                            \* body > 2^11 bytes: a 3-byte packfile header
 BlkC == << <<Ascii("p")>>, <<Run(113, 300)>> >>
 
 X1 == [off |-> <<1, 2, 0>>, rows |-> << <<Run(30, 16), SumN(1)>>, <<Run(10, 16), SumN(2)>>, <<Run(20, 16), SumN(3)>> >>]
@@ -93,7 +92,7 @@ ColFull == [name |-> Ascii("ab"), na |-> 3, fl |-> <<<<F0>>, <<FPi>>, <<FOne>>, 
 P1 == [version |-> 1, rows |-> 300, cols |-> <<ColFull, EmptyCol, [EmptyCol EXCEPT !.name = Ascii("n")]>>]
 P2 == [version |-> 1, rows |-> 0, cols |-> <<>>]
 
-Pack1 == << <<ObjTypeCommit, EncCommit(C1)>>, <<ObjTypeTable, EncTable(T1)>>, <<ObjTypeBlock, EncBlock(BlkBig)>> >>
+Pack1 == << <<ObjTypeCommit, EncCommit(C1)>>, <<ObjTypeTable, EncTable(T1)>>, <<ObjTypeBlock, EncBlock(BlkC)>> >>
 Pack2 == << <<ObjTypeBlock, EncBlock(BlkA)>>, <<ObjTypeCommit, EncCommit(C2)>> >>
 Pkt1 == <<Ascii("want"), Ascii("have"), <<>>, Run(104, 300), Ascii("done"), <<>>>>   \* ends with a flush-pkt
 Pkt2 == <<Ascii("ack"), <<>>, Ascii("z")>>                                           \* ends with a data line
@@ -178,10 +177,9 @@ ASSUME StreamsWF ==
   /\ Join(SubSeq(SegsPack(Pack1), 1, 2)) = PackMagic
   /\ WFCommit(C1) /\ FitsCommit(C1) /\ WFCommit(C2) /\ FitsCommit(C2)
   /\ WFTable(T1) /\ FitsTable(T1) /\ WFTable(T2) /\ FitsTable(T2) /\ Len(T1.blocks) >= 2
-  /\ FitsBlock(BlkA) /\ FitsBlock(BlkBig) /\ FitsBlock(BlkC)
+  /\ FitsBlock(BlkA) /\ FitsBlock(BlkC)
   /\ WFBlockIndex(X1) /\ FitsBlockIndex(X1) /\ WFBlockIndex(X2) /\ FitsBlockIndex(X2)
   /\ FitsStrList(SL1) /\ FitsStrList(SL2) /\ FitsProfile(P1) /\ FitsProfile(P2)
-  /\ HdrGroups(NatBits(BLen(EncBlock(BlkBig)))) = 2
   /\ \A k \in GenIds : IsBytes(BytesTab[k]) /\ BLen(BytesTab[k]) = TotalTab[k]
   \* the encoded objects are what the format's total decoders read back (Wire's own theorem, on these values)
   /\ RoundTrips("commit", C1) /\ RoundTrips("table", T1) /\ RoundTrips("block", BlkA) /\ RoundTrips("blkidx", X1)
